@@ -134,6 +134,12 @@ CLAIMED = {
         technique="HIR match-arm tables + MIR data/selecting-control dependence queries",
         design_ref="DESIGN.md section 4 C28",
     ),
+    "C29": dict(
+        level="other",
+        text="Wiring and counting clauses only (the equality with the longest chain quantifies over run-time graphs and is not decided): QubitGraph::new gives every accepted instruction one node, updates the per-qubit map with it for every qubit from get_qubits, and adds the edge (previous instruction on that qubit) -> (this instruction) exactly when there was one; the step of gate_depth, enumerated over its paths, adds 1 exactly for a Gate with at least the threshold number of qubits; the fold starts from 0 and the result is the maximum over paths (0 when empty); path_fold starts from nodes without incoming edges and follows outgoing edges.",
+        technique="provenance of add_edge endpoints + control dependence over MIR; path enumeration of the counting closure (no solver); fold shape",
+        design_ref="DESIGN.md section 10 (C29 reconsidered)",
+    ),
     "C30": dict(
         level="other",
         text="type_check carries no state across instructions (no local defined before the loop is written in it; every checker call receives only the current instruction and program.memory_regions), so the verdict is per-instruction and invariant under reordering/duplication; should_be_real names every Expression variant explicitly, recurses into every child and propagates every verdict to its result, rejects Variable and looks Address up; every (frame, expression) instruction kind - computed from the ADT definitions - has its expression passed to should_be_real; no name constant is compared in the checker (renaming invariance). The scalar typing tables of classical instructions are not decided.",
@@ -209,7 +215,6 @@ CLAIMED = {
 }
 
 NOT_APPLICABLE = {
-    "C29": "equality between a number computed by run-time graph search and the longest qualifying chain: no clause whose truth is in the shape of the code; a rule on single operators would be a frozen-fragment proxy (DESIGN.md section 6)",
     "C32": "numerical identities of floating-point sample computations over real-valued durations/rates; nothing structural that is a necessary condition in the required sense (DESIGN.md section 6)",
 }
 
